@@ -97,6 +97,14 @@ def case_size(case: dict) -> int:
 def shrinks(case: dict):
     from sim.history import shrink_history
 
+    if case.get("sessions"):
+        from sim.history import shrink_sessions
+
+        for sess in shrink_sessions(case["sessions"])[:32]:
+            c = copy.deepcopy(case)
+            c["sessions"] = sess
+            yield c
+        return
     hist = case.get("history")
     if not hist:
         return
@@ -608,16 +616,41 @@ def _uniformity_problem(case: dict) -> str | None:
     return None
 
 
+def _zy_single(case: dict, ops: list):
+    """The failing history alone, in a pristine process: the signature it yields, or None."""
+    res = run_case(dict(case, history=ops, sessions=None))
+    return res.get("signature") if res.get("verdict") == "violation" else None
+
+
 def run_case(case: dict) -> dict:
     import hashlib
 
+    zy = None
+    if case.get("history") is None and not case.get("sessions"):
+        from sim.isolate import Zygote
+
+        zy = Zygote(dict(single=_zy_single))  # pristine: forked before this process uses the library
     root = tempfile.mkdtemp(prefix="c16-", dir=wl.scratch_root())
     rec = Recorder()
     try:
         if case["window"][2] <= -90.0 or case["window"][3] >= 90.0:
             rec.probe("window_with_pole")
         violation = None
-        if case.get("history") is not None:
+        if case.get("sessions"):
+            # several sessions one after the other in this process; the last one is the failing one
+            for hist in case["sessions"]:
+                model = Model(case, tempfile.mkdtemp(prefix="ex-", dir=root), rec)
+                try:
+                    for op in hist:
+                        model.apply(op)
+                except HistoryViolation as err:
+                    violation = (list(model.ops), err)
+                finally:
+                    model.close()
+                rec.finish_example(model.ops, model.outcomes)
+                if violation is not None:
+                    break
+        elif case.get("history") is not None:
             model = Model(case, root, rec)
             try:
                 for op in case["history"]:
@@ -667,7 +700,21 @@ def run_case(case: dict) -> dict:
         )
         if violation is not None:
             ops, err = violation
-            res.update(signature=err.signature, detail=err.detail, tail=ops, history=ops)
+            res.update(signature=err.signature, detail=err.detail, tail=ops)
+            if case.get("sessions"):
+                res.update(sessions=[list(h) for h in rec.histories])
+            elif case.get("history") is not None or zy is None:
+                res.update(history=ops)
+            else:
+                from sim.history import replay_form
+
+                def single(c, o):
+                    r = zy.call("single", c, o, timeout=240)
+                    return r[1] if r[0] == "ok" else None
+
+                res.update(replay_form(case, ops, err.signature, rec, single))
         return res
     finally:
+        if zy is not None:
+            zy.close()
         shutil.rmtree(root, ignore_errors=True)
